@@ -3,137 +3,135 @@
 (* haiway ctx.stream (property C11): a generator wrapped into a stream     *)
 (* that is created in one context (scope S1, state A = 1) and consumed in  *)
 (* the same scope, in another scope (A = 2), outside any scope, or item by *)
-(* item from other tasks; fully, or abandoned / closed early.              *)
+(* item from other tasks; fully, or abandoned / closed early; the generator *)
+(* may suspend before one of its items, and the pulling task may be        *)
+(* cancelled while it waits there.                                         *)
 (*                                                                         *)
-(* The intended design: the generator body always runs in the creation     *)
-(* context (plus its own nested scopes), the consumer's context is never   *)
-(* touched, the stream's own scope completes when the stream is exhausted  *)
-(* or closed.  The pinned implementation only CREATES the generator in the *)
-(* snapshot; its body runs in whatever context calls __anext__.  That is a *)
-(* genuine defect recorded as known findings: the actions whose name ends  *)
-(* in _KF_C11 describe it as a bounded havoc on exactly the affected       *)
-(* observation fields (enabled only when Dev = TRUE, i.e. in conformance   *)
-(* configurations); every other field stays strictly checked.              *)
+(* The generator body always runs in the creation context (plus its own    *)
+(* nested scopes), whichever task pulls; the consumer's context is never   *)
+(* touched; the stream's own scope - registered under the creator scope    *)
+(* when the stream is made - completes when the stream is exhausted or     *)
+(* closed, also when it is closed before its first item.                   *)
+(* (The pinned implementation only CREATED the generator in the snapshot   *)
+(* and ran its body in whatever context called __anext__; until the repair *)
+(* this module described that by deviation actions *_KF_C11 - see git      *)
+(* history and DESIGN.md 3.4 / 6.1.)                                       *)
 (***************************************************************************)
 EXTENDS Naturals, Sequences, FiniteSets, TLC
 
-CONSTANTS MaxItems, Dev, Bug
+CONSTANTS MaxItems, Bug
 
 Places == {"same", "other_scope", "outside", "other_task"}
 STREAM == 50          \* id standing for the stream's own scope / task group
 NOCTX == 93  DEFAULT == 91
 
-VARIABLES place, n, ending, nested,   \* scenario, chosen in Init
+VARIABLES place, n, ending, nested, slow, kind,   \* scenario, chosen in Init (slow = k > 0: the generator suspends before item k - 1)
           pos,        \* items produced so far
-          sst,        \* "fresh" | "open" | "ended" | "closed"
+          sst,        \* "fresh" | "open" | "pulling" | "ended" | "closed" | "cancelled"
           s1done,     \* the creator scope's completion callback ran (it waits for the stream's scope)
-          dev,        \* ghost: some deviation action was taken
+          called,     \* the source has been called (on the first pull)
           nops, obs
 
-vars == <<place, n, ending, nested, pos, sst, s1done, dev, nops, obs>>
-scen == <<place, n, ending, nested>>
+vars == <<place, n, ending, nested, slow, kind, pos, sst, s1done, called, nops, obs>>
+scen == <<place, n, ending, nested, slow, kind>>
 
 (* what the consumer sees of its own context: <<state A, metrics scope, task group>> *)
+BUSY == 77
+Busy == <<BUSY, BUSY, BUSY>>      \* the consumer task is inside __anext__: it cannot be probed
 Own == CASE place = "same" -> <<1, 1, 1>>
          [] place = "other_scope" -> <<2, 2, 2>>
          [] OTHER -> <<NOCTX, 0, 0>>
 
 Init == /\ place \in Places /\ n \in 1..MaxItems /\ ending \in {"normal", "error"} /\ nested \in BOOLEAN
-        /\ (nested => n >= 2)
-        /\ pos = 0 /\ sst = "fresh" /\ s1done = FALSE /\ dev = FALSE /\ nops = 0
-        /\ obs = [res |-> <<"none", 0, 0, 0>>, cons |-> Own, s1 |-> FALSE]
+        /\ (nested => n >= 2) /\ slow \in 0..n
+        \* the source: an async generator function (calling it runs nothing), a plain function that does work when
+        \* called and returns the generator ("factory": it reports what it saw when called), or one that raises when called
+        /\ kind \in {"agen", "factory", "raising"}
+        /\ (kind = "raising" => n = 1 /\ ~nested /\ slow = 0 /\ ending = "normal")
+        /\ pos = 0 /\ sst = "fresh" /\ s1done = FALSE /\ called = FALSE /\ nops = 0
+        /\ obs = [res |-> <<"none", 0, 0, 0, 0>>, cons |-> Own, s1 |-> FALSE, call |-> <<0, 0, 0>>]
 
 InNested(i) == nested /\ i = 1          \* the generator yields its 2nd item from inside a nested scope (A = 3)
-ItemOf(i) == <<"item", i, IF InNested(i) THEN 3 ELSE 1, IF InNested(i) THEN 3 ELSE STREAM>>
+(* an item reports what the generator body saw when it produced it: <<"item", index, state A, metrics scope, task group>>
+   (the nested scope is a synchronous one: it has no task group of its own) *)
+ItemOf(i) == <<"item", i, IF InNested(i) THEN 3 ELSE 1, IF InNested(i) THEN 3 ELSE STREAM, STREAM>>
 Completes == place # "same"              \* S1 was left before consumption started, except in "same"
 
-(* ---------------- intended design ---------------- *)
+(* what the source saw when it was called: it is called within the stream's own scope *)
+CallView(c) == IF kind = "factory" /\ c THEN (IF Bug = "call_outside_scope" THEN <<1, 1, 1>> ELSE <<1, STREAM, STREAM>>) ELSE <<0, 0, 0>>
 Bound == nops < MaxItems + 3
+None5(k) == <<k, 0, 0, 0, 0>>
 
 Pull ==
-  /\ Bound /\ nops' = nops + 1 /\ UNCHANGED <<scen, dev>>
-  /\ IF sst \in {"fresh", "open"} /\ pos < n
+  /\ Bound /\ nops' = nops + 1 /\ UNCHANGED scen
+  /\ sst # "pulling"
+  /\ called' = (called \/ sst = "fresh")
+  /\ IF sst = "fresh" /\ kind = "raising"
+       THEN \* calling the source fails: that is how the stream ends; its scope was entered and is left
+            /\ sst' = "ended" /\ pos' = pos /\ s1done' = Completes
+            /\ obs' = [res |-> <<"err", 0, 0, 0, 0>>, cons |-> Own, s1 |-> s1done', call |-> CallView(called')]
+       ELSE IF sst \in {"fresh", "open"} /\ pos < n /\ slow = pos + 1
+       THEN \* the generator suspends before this item: the pulling task waits inside __anext__
+            /\ sst' = "pulling" /\ UNCHANGED <<pos, s1done>>
+            /\ obs' = [res |-> None5("pending"), cons |-> IF place = "other_task" THEN Own ELSE Busy, s1 |-> s1done,
+                       call |-> CallView(called')]
+       ELSE IF sst \in {"fresh", "open"} /\ pos < n
        THEN /\ pos' = pos + 1 /\ sst' = "open" /\ s1done' = s1done
-            /\ obs' = [res |-> IF Bug = "reorder" /\ n = 2 THEN ItemOf(1 - pos) ELSE ItemOf(pos), cons |-> Own, s1 |-> s1done]
+            /\ obs' = [res |-> IF Bug = "reorder" /\ n = 2 THEN ItemOf(1 - pos) ELSE ItemOf(pos), cons |-> Own, s1 |-> s1done,
+                       call |-> CallView(called')]
        ELSE IF sst \in {"fresh", "open"}
          THEN /\ sst' = "ended" /\ pos' = pos
               /\ s1done' = IF Bug = "never_completes" THEN s1done ELSE Completes
-              /\ obs' = [res |-> IF ending = "error" /\ Bug # "swallow_error" THEN <<"err", 0, 0, 0>> ELSE <<"stop", 0, 0, 0>>,
-                         cons |-> Own, s1 |-> s1done']
+              /\ obs' = [res |-> IF ending = "error" /\ Bug # "swallow_error" THEN <<"err", 0, 0, 0, 0>> ELSE <<"stop", 0, 0, 0, 0>>,
+                         cons |-> Own, s1 |-> s1done', call |-> CallView(called')]
          ELSE /\ UNCHANGED <<pos, sst, s1done>>      \* exhausted or closed: plain end of iteration
-              /\ obs' = [res |-> <<"stop", 0, 0, 0>>, cons |-> Own, s1 |-> s1done]
+              /\ obs' = [res |-> <<"stop", 0, 0, 0, 0>>, cons |-> Own, s1 |-> s1done, call |-> CallView(called)]
+
+(* the generator goes on and yields the item it was suspended before *)
+Release ==
+  /\ sst = "pulling" /\ nops' = nops + 1 /\ UNCHANGED scen
+  /\ pos' = pos + 1 /\ sst' = "open" /\ s1done' = s1done /\ called' = called
+  /\ obs' = [res |-> ItemOf(pos), cons |-> Own, s1 |-> s1done, call |-> CallView(called)]
+
+(* the pulling task is cancelled while the generator is suspended: the cancellation goes through the generator body
+   (which does not handle it), the stream's scope is left and completes, the task sees the cancellation and its own
+   context again; the stream is finished *)
+CancelPull ==
+  /\ sst = "pulling" /\ nops' = nops + 1 /\ UNCHANGED <<scen, pos>>
+  /\ sst' = "cancelled" /\ s1done' = IF Bug = "cancel_leaks_scope" THEN s1done ELSE Completes
+  /\ called' = called
+  /\ obs' = [res |-> None5("cancelled"), cons |-> Own, s1 |-> s1done', call |-> CallView(called)]
 
 Close ==
   /\ Bound /\ sst \in {"fresh", "open"} /\ sst' = "closed"
-  /\ nops' = nops + 1 /\ UNCHANGED <<scen, pos, dev>>
+  /\ nops' = nops + 1 /\ UNCHANGED <<scen, pos>>
   /\ s1done' = Completes
-  /\ obs' = [res |-> <<"closed", 0, 0, 0>>, cons |-> Own, s1 |-> s1done']
+  /\ called' = called
+  /\ obs' = [res |-> <<"closed", 0, 0, 0, 0>>, cons |-> Own, s1 |-> s1done', call |-> CallView(called)]
 
 (* the consumer just stops iterating (break) and looks at its own context again *)
 Abandon ==
   /\ Bound /\ sst = "open" /\ nops' = nops + 1
-  /\ UNCHANGED <<scen, pos, sst, s1done, dev>>
-  /\ obs' = [res |-> <<"abandoned", 0, 0, 0>>, cons |-> Own, s1 |-> s1done]
-
-(* ---------------- known findings (pinned implementation), bounded havoc ---------------- *)
-ConsLeak == {Own} \cup {<<a, m, g>> : a \in {1, 2, 3, DEFAULT}, m \in {STREAM, 3}, g \in {STREAM}}
-GenSees == {1, 2, 3, DEFAULT, NOCTX}
-Pull_KF_C11 ==
-  /\ Bound /\ Dev /\ dev' = TRUE
-  /\ nops' = nops + 1 /\ UNCHANGED scen
-  /\ IF sst \in {"fresh", "open"} /\ pos < n
-       THEN \/ \* consumed across tasks, the generator is resumed inside its nested scope by a task other than the one
-               \* that entered it: leaving that scope fails (context token of another Context), the stream dies
-               (/\ place = "other_task" /\ nested /\ pos = 2
-                /\ pos' = pos /\ sst' = "ended" /\ s1done' = FALSE
-                /\ obs' = [res |-> <<"exc", 0, 0, 0>>, cons |-> Own, s1 |-> FALSE])
-            \/ (/\ pos' = pos + 1 /\ sst' = "open" /\ s1done' = s1done
-                /\ \E a \in GenSees, c \in (IF place = "other_task" THEN {Own} ELSE ConsLeak),
-                      m \in (IF place = "other_task" /\ ~InNested(pos) THEN {ItemOf(pos)[4], 0} ELSE {ItemOf(pos)[4]}) :
-                      obs' = [res |-> <<"item", pos, IF InNested(pos) THEN 3 ELSE a, m>>, cons |-> c, s1 |-> s1done])
-       ELSE IF sst \in {"fresh", "open"}
-         THEN /\ sst' = "ended" /\ pos' = pos
-              /\ IF place = "other_task"
-                   THEN \* leaving the stream's scope from another task fails; its scope never completes
-                        /\ s1done' = FALSE
-                        /\ obs' = [res |-> <<"exc", 0, 0, 0>>, cons |-> Own, s1 |-> FALSE]
-                   ELSE /\ s1done' = Completes
-                        /\ obs' = [res |-> IF ending = "error" THEN <<"err", 0, 0, 0>> ELSE <<"stop", 0, 0, 0>>,
-                                   cons |-> Own, s1 |-> s1done']
-         ELSE /\ UNCHANGED <<pos, sst, s1done>>
-              /\ obs' = [res |-> <<"stop", 0, 0, 0>>, cons |-> Own, s1 |-> s1done]
-
-Close_KF_C11 ==
-  /\ Bound /\ Dev /\ dev' = TRUE
-  /\ sst \in {"fresh", "open"} /\ sst' = "closed"
-  /\ nops' = nops + 1 /\ UNCHANGED <<scen, pos>>
-  /\ \/ /\ sst = "fresh"            \* closed before the first item: the pre-built scope is never entered nor completed
-        /\ s1done' = FALSE /\ obs' = [res |-> <<"closed", 0, 0, 0>>, cons |-> Own, s1 |-> FALSE]
-     \/ /\ sst = "open" /\ place = "other_task"
-        /\ s1done' = FALSE /\ obs' = [res |-> <<"exc", 0, 0, 0>>, cons |-> Own, s1 |-> FALSE]
-
-Abandon_KF_C11 ==
-  /\ Bound /\ Dev /\ dev' = TRUE
-  /\ sst = "open" /\ nops' = nops + 1 /\ place # "other_task"
   /\ UNCHANGED <<scen, pos, sst, s1done>>
-  /\ \E c \in ConsLeak : obs' = [res |-> <<"abandoned", 0, 0, 0>>, cons |-> c, s1 |-> s1done]
+  /\ called' = called
+  /\ obs' = [res |-> <<"abandoned", 0, 0, 0, 0>>, cons |-> Own, s1 |-> s1done, call |-> CallView(called)]
 
-Next == Pull \/ Close \/ Abandon \/ Pull_KF_C11 \/ Close_KF_C11 \/ Abandon_KF_C11
+Next == Pull \/ Release \/ CancelPull \/ Close \/ Abandon
 Spec == Init /\ [][Next]_vars
 
 -----------------------------------------------------------------------------
-(* the properties are stated for the intended design: deviation steps are excluded (dev = FALSE) *)
-TypeOK == sst \in {"fresh", "open", "ended", "closed"} /\ pos \in 0..MaxItems
+TypeOK == sst \in {"fresh", "open", "pulling", "ended", "closed", "cancelled"} /\ pos \in 0..MaxItems
 
 (* C11: exactly the generator's items, in order, then its normal end or its exception *)
-ItemsInOrder == ~dev => /\ (obs.res[1] = "item" => obs.res[2] = pos - 1)
-                        /\ (obs.res[1] = "err" => ending = "error" /\ pos = n)
-                        /\ (obs.res[1] = "stop" /\ sst = "ended" => pos = n)
-EndsWithError == ~dev /\ sst = "ended" /\ ending = "error" /\ obs.res[1] \in {"err", "stop"} /\ nops = n + 1 => obs.res[1] = "err"
+ItemsInOrder == /\ (obs.res[1] = "item" => obs.res[2] = pos - 1)
+                /\ (obs.res[1] = "err" => (ending = "error" /\ pos = n) \/ kind = "raising")
+                /\ (obs.res[1] = "stop" /\ sst = "ended" => pos = n \/ kind = "raising")
+EndsWithError == sst = "ended" /\ ending = "error" /\ obs.res[1] \in {"err", "stop"} /\ nops = n + 1 + (IF slow > 0 THEN 1 ELSE 0) => obs.res[1] = "err"
 (* C11: the generator body observes the state current where the stream was created *)
-GenSeesCreation == ~dev /\ obs.res[1] = "item" => obs.res[3] = (IF InNested(obs.res[2]) THEN 3 ELSE 1)
+GenSeesCreation == obs.res[1] = "item" => (obs.res[3] = (IF InNested(obs.res[2]) THEN 3 ELSE 1) /\ obs.res[5] = STREAM)
+CallSeesStreamScope == obs.call \in {<<0, 0, 0>>, <<1, STREAM, STREAM>>}
 (* C11: the consumer's own state, metrics scope and task group are unaffected *)
-ConsumerIntact == ~dev => obs.cons = Own
+ConsumerIntact == obs.cons = (IF sst = "pulling" /\ place # "other_task" THEN Busy ELSE Own)
 (* C11: the stream's scope completes when the stream is exhausted or closed *)
-StreamScopeCompletes == ~dev /\ sst \in {"ended", "closed"} /\ Completes => s1done
+StreamScopeCompletes == sst \in {"ended", "closed", "cancelled"} /\ Completes => s1done
 =============================================================================
